@@ -256,7 +256,11 @@ func GenCase(tape *sim.Tape, crashBias bool) *Case {
 			}
 		}
 		iv.Recursive = true
-		switch tape.Draw(5) {
+		switch tape.Draw(7) {
+		case 5: // the directory named through a trailing dot
+			iv.Inputs, iv.Output = []string{"src/."}, "src/."
+		case 6: // ... or through a parent reference
+			iv.Inputs, iv.Output = []string{"src/../src/."}, "src/"
 		case 0:
 			iv.Inputs, iv.Output = []string{"src/"}, "src/"
 		case 1:
@@ -366,7 +370,7 @@ func GenCase(tape *sim.Tape, crashBias bool) *Case {
 			}
 			iv.Inputs = append(iv.Inputs, one(dir, minifiableExts, true))
 		}
-		iv.Output = []string{"out/", "out"}[tape.Draw(2)]
+		iv.Output = []string{"out/", "out", "d0/", "d1", "./"}[tape.Draw(5)]
 	case "dir-noslash":
 		genDir(tape, t, "src", 1+tape.Draw(2), true, &counter)
 		iv.Recursive = true
@@ -393,7 +397,13 @@ func GenCase(tape *sim.Tape, crashBias bool) *Case {
 		genDir(tape, t, "src", 2, true, &counter)
 		iv.Recursive = true
 		iv.Inputs, iv.Output = []string{[]string{"src", "src/"}[tape.Draw(2)]}, "out/"
-		switch tape.Draw(5) {
+		switch tape.Draw(8) {
+		case 5: // a single star does not cross a slash: the sub-directory's files stay selected
+			iv.Filters = []Filter{{false, "src/*"}}
+		case 6: // an end-anchored expression that matches a directory path, not the files in it
+			iv.Filters = []Filter{{false, "~/(sub|lib|d)[0-9]*$"}}
+		case 7:
+			iv.Filters = []Filter{{false, "src/sub*"}, {false, "src/lib*"}}
 		case 0:
 			iv.Match = []string{"*.js"}
 		case 1:
